@@ -206,8 +206,9 @@ def rand_tree(rng, variants, depth, nhot, two=TWO, p_two=0.35, p_cold=0.25):
     return rng.choice(variants) + [rand_tree(rng, variants, depth - 1, nhot, two, p_two, p_cold)]
 
 
-def rand_events(rng, nhot, n, malformed=0.3):
+def rand_events(rng, nhot, n, malformed=0.3, alpha=None, term_p=0.28):
     """Mostly valid multi-input timeline, with terminals anywhere; some malformed."""
+    alpha = alpha or ALPHA
     evs = []
     done = set()
     for _ in range(n):
@@ -218,9 +219,9 @@ def rand_events(rng, nhot, n, malformed=0.3):
                 break
             i = rng.choice(live)
         r = rng.random()
-        if r < 0.72:
-            evs.append(["emit", str(i), sx.N(rng.choice(ALPHA))])
-        elif r < 0.88:
+        if r < 1 - term_p:
+            evs.append(["emit", str(i), sx.N(rng.choice(alpha))])
+        elif r < 1 - term_p * 3 / 7:
             evs.append(["emit", str(i), "c"]); done.add(i)
         else:
             evs.append(["emit", str(i), ["e", str(rng.randint(1, 9))]]); done.add(i)
